@@ -257,20 +257,24 @@ impl StructParser {
 
     /// Check if a type is Option<T>
     fn is_optional_type(&self, ty: &Type) -> bool {
-        if let Type::Path(type_path) = ty {
-            if let Some(segment) = type_path.path.segments.last() {
-                segment.ident == "Option"
-            } else {
-                false
-            }
-        } else {
-            false
+        match ty {
+            Type::Path(type_path) => type_path
+                .path
+                .segments
+                .last()
+                .is_some_and(|segment| segment.ident == "Option"),
+            // &'a Option<T> and (Option<T>) are Options for serde, as they are for the resolver
+            Type::Reference(reference) => self.is_optional_type(&reference.elem),
+            Type::Paren(paren) => self.is_optional_type(&paren.elem),
+            _ => false,
         }
     }
 
     /// Convert a Type to its string representation
     fn type_to_string(ty: &Type) -> String {
         match ty {
+            // (T) is T
+            Type::Paren(paren) => Self::type_to_string(&paren.elem),
             Type::Path(type_path) => {
                 let path = &type_path.path;
                 let segments: Vec<String> = path
